@@ -365,6 +365,30 @@ func c13Strings(c *Ctx) {
 		}
 	}
 	c.check(loopOK, "R3", "string-terminator", p.Pos(st.Pos()), "the scan continues while the next byte != the opening quote", "the string scan is not bounded by `next byte != quoteChar`")
+	// one byte per step and no byte is special: every advance inside the scan is conditional on the
+	// terminator test alone (a scanner that skips over `\"` ends "a\\" at the wrong quote)
+	inScan := 0
+	for _, call := range callsIn(st) {
+		if !staticCalleeIs(call, "(*lang.Lexer).advance") {
+			continue
+		}
+		bounded := false
+		var extra []string
+		for _, rl := range F.At(call.Block()).Rels() {
+			g := p.Render(rl.x) + " " + rl.op.String() + " " + p.Render(rl.y)
+			if g == "(*lang.Lexer).peek(l) != quoteChar" {
+				bounded = true
+				continue
+			}
+			extra = append(extra, g)
+		}
+		if !bounded {
+			continue // the advance over the closing quote
+		}
+		inScan++
+		c.check(len(extra) == 0, "R3", fmt.Sprintf("string-scan-step #%d", inScan), p.InstrPos(call), "the scan advances one byte per step whatever the byte is", "inside the string scan an advance is additionally conditional on {"+strings.Join(extra, " ; ")+"}: some byte sequences are treated specially at the lexical level, so a literal no longer denotes exactly the characters between its quotes")
+	}
+	c.check(inScan == 1, "R3", "string-scan-single-step", p.Pos(st.Pos()), "exactly one advance per scanned byte", fmt.Sprintf("%d advance calls inside the string scan (1 expected)", inScan))
 	for _, rc := range p.successResults(st) {
 		c.check(rc.Value == "lang.Token{Tag: Str, Pos: l.tokenStart, Len: ((l.pos - l.tokenStart) - 1)}", "R3", "string-token", p.InstrPos(rc.Ret), "Str token spanning the text between the quotes", "the string token is "+rc.Value)
 	}
